@@ -18,7 +18,9 @@ Step == /\ l <= Len(Ev(tid))
         /\ LET e == Ev(tid)[l]
                r == F!Handle(Cfg(tid), st, out, [goto |-> e.goto, e |-> e.e, d |-> e.d])
            IN  /\ e.ev = "event"
-               /\ r.ret = e.ret                       \* True / False / unknown event / error
+               \* True / False / unknown event / error; an on_enter event that fails non-fatally
+               \* reaches the caller as an "unknown event" error as well - after the transition
+               /\ (IF r.ret = "raised" THEN "unknown" ELSE r.ret) = e.ret
                /\ e.cerr = (r.ret = "error")          \* only an error stops the simulation
                /\ IF r.ret = "error"
                   THEN dead' = TRUE /\ UNCHANGED <<st, out>>
